@@ -21,6 +21,7 @@ TARGETS = {
     "C08": ("reader", [("dbg", []), ("rel", ["-O"])], 200000),
     "C09": ("writer", [("dbg", []), ("rel", ["-O"])], 5000),
     "C12": ("bitset", [("dbg", [])], 40000),
+    "C10": ("geometry", [("dbg", [])], 20000000),
 }
 LIST_KEYS = ["ops", "script", "calls", "cuts", "interrupts"]
 
